@@ -9,7 +9,7 @@ SRC="/tmp/$SID/out/$N"; [ -f "$SRC/patch.diff" ] || SRC="/verif/seeded/$SID-$N"
 [ -f "$SRC/patch.diff" ] || { echo "no patch for $SID-$N"; exit 2; }
 PID=$(python3 -c "import json;print(json.load(open('$SRC/meta.json'))['property'])" 2>/dev/null || echo "C${SID#s}")
 IDS="${@:-$PID}"
-W=/tmp/ev_$SID$N; T=/tmp/ev_target
+W=/tmp/ev_$SID$N; T=${EVT:-/tmp/ev_target}; RUNLOG=/tmp/ev_run.$SID$N.log
 D=/verif/seeded/$SID-$N; mkdir -p "$D"
 [ "$SRC" != "$D" ] && { cp "$SRC/patch.diff" "$SRC/meta.json" "$D/" 2>/dev/null; cp "$SRC/demo.diff" "$D/" 2>/dev/null; }
 rm -rf "$W"; git -C /repo worktree prune; git -C /repo worktree add --detach "$W" HEAD >/dev/null 2>&1 || { echo "worktree failed"; exit 2; }
@@ -17,10 +17,10 @@ cd "$W"
 export CARGO_TARGET_DIR=$T CARGO_NET_OFFLINE=true
 DEMO_CMD=$(python3 -c "import json;print(json.load(open('$D/meta.json')).get('demo_command',''))" 2>/dev/null)
 SPECIAL=""
-case "$DEMO_CMD" in *--features*) SPECIAL=$(echo "$DEMO_CMD" | grep -oE "cargo (\+nightly )?(test|nextest run)[^&;]*--features[^&;]*" | head -1) ;; esac
+case "$DEMO_CMD" in *--features*) SPECIAL=$(echo "$DEMO_CMD" | grep -oE "cargo (\+nightly )?(test|nextest run)[^&;]*--features[^&;]*" | head -1 | sed -E 's/[[:space:]]+[(#].*$//') ;; esac
 suite() { # prints sorted failing test names (or exit code for a special command)
-  if [ -n "$SPECIAL" ]; then case "$SPECIAL" in *--offline*) ;; *) SPECIAL="$SPECIAL --offline";; esac; (eval "$SPECIAL" >/tmp/ev_run.log 2>&1; echo "exit=$?");
-  else cargo nextest run --workspace --no-fail-fast --offline >/tmp/ev_run.log 2>&1; grep -E "^\s+(FAIL|SIGABRT|SIGSEGV|TIMEOUT|ABORT|LEAK) \[" /tmp/ev_run.log | awk '{print $NF}' | sort -u | tr '\n' ','; grep -qE "error: could not compile|error\[E" /tmp/ev_run.log && echo "COMPILE-ERROR"; fi; }
+  if [ -n "$SPECIAL" ]; then case "$SPECIAL" in *--offline*) ;; *) SPECIAL="$SPECIAL --offline";; esac; (eval "$SPECIAL" >$RUNLOG 2>&1; echo "exit=$?");
+  else cargo nextest run --workspace --no-fail-fast --offline >$RUNLOG 2>&1; grep -E "^\s+(FAIL|SIGABRT|SIGSEGV|TIMEOUT|ABORT|LEAK) \[" $RUNLOG | awk '{print $NF}' | sort -u | tr '\n' ','; grep -qE "error: could not compile|error\[E" $RUNLOG && echo "COMPILE-ERROR"; fi; }
 RES="applies=no"
 if git apply --check "$D/patch.diff" 2>/dev/null; then
   RES="applies=yes"
@@ -36,14 +36,14 @@ if git apply --check "$D/patch.diff" 2>/dev/null; then
   SPECIAL_SAVE="$SPECIAL"; SPECIAL=""; C=$(suite); SPECIAL="$SPECIAL_SAVE"
   RES="$RES suite_with_patch_only=[$C]"
 fi
-cd /verif; git -C /repo worktree remove --force "$W" >/dev/null 2>&1
+cd /verif; git -C /repo worktree remove --force "$W" >/dev/null 2>&1; rm -f "$RUNLOG"
 echo "$SID-$N confirm: $RES" | tee "$D/confirm.txt"
 # run the checks against it
 unset CARGO_TARGET_DIR
 if [ "${ISOLATED:-0}" = "1" ]; then
   # isolated mode: a private copy of the harness pointing at a private worktree of /repo (used while a
   # long run is reading /repo); otherwise the change is applied to /repo itself and undone afterwards
-  E=/tmp/evh
+  E=${EVH:-/tmp/evh}
   if [ ! -d $E/repo ]; then mkdir -p $E; git -C /repo worktree add --detach $E/repo HEAD >/dev/null 2>&1; fi
   git -C $E/repo checkout -q --detach "$(git -C /repo rev-parse HEAD)" 2>/dev/null; git -C $E/repo checkout -- . ; git -C $E/repo status --porcelain | grep '^??' | awk '{print $2}' | (cd $E/repo && xargs -r rm -rf)
   rsync -a --delete --exclude target --exclude fuzz/target /verif/harness/ $E/harness/
@@ -52,7 +52,7 @@ if [ "${ISOLATED:-0}" = "1" ]; then
   git -C $E/repo apply "$D/patch.diff"
   for id in $IDS; do
     BIN=vcheck; FEAT=""; [ "$id" = "C15" ] && { BIN=vcheck_tls; FEAT="--features tls"; }
-    (cd $E/harness && cargo build --release --offline $FEAT --bin $BIN >/tmp/evh_build.log 2>&1) || { echo "$SID-$N check $id: harness does not build" | tee -a "$D/confirm.txt"; continue; }
+    (cd $E/harness && cargo build --release --offline $FEAT --bin $BIN >$E/build.log 2>&1) || { echo "$SID-$N check $id: harness does not build" | tee -a "$D/confirm.txt"; continue; }
     out=$(VERIF_ROOT=$E $E/target/release/$BIN run $id quick 2>&1 | grep -E "^(signature|VIOLATION|OK|INCONCLUSIVE|error)" | head -3 | tr '\n' ' ' | sed "s|$E|/verif|g")
     echo "$SID-$N check $id: $out" | tee -a "$D/confirm.txt"
   done
